@@ -21,8 +21,8 @@ var runCounter atomic.Int64
 // non-zero exit without a result or a watchdog kill is infrastructure.
 func runChild(b *buildOut, p *plan.Plan, wallLimit time.Duration) *plan.Result {
 	id := runCounter.Add(1)
-	pf := filepath.Join(b.scratch, fmt.Sprintf("plan-%d.json", id))
-	of := filepath.Join(b.scratch, fmt.Sprintf("out-%d.json", id))
+	pf := filepath.Join(b.scratch, fmt.Sprintf("plan-%08d.json", id))
+	of := filepath.Join(b.scratch, fmt.Sprintf("out-%08d.json", id))
 	defer os.Remove(pf)
 	defer os.Remove(of)
 	if err := p.Save(pf); err != nil {
@@ -31,9 +31,13 @@ func runChild(b *buildOut, p *plan.Plan, wallLimit time.Duration) *plan.Result {
 	ctx, cancel := context.WithTimeout(context.Background(), wallLimit)
 	defer cancel()
 	cmd := exec.CommandContext(ctx, b.bin, "-test.run", "^TestSim$", "-test.timeout", "0")
-	env := []string{"GOMAXPROCS=1", "GOGC=off", "GODEBUG=asyncpreemptoff=1,randautoseed=0,randseednop=0,updatemaxprocs=0", "VERIF_PLAN=" + pf, "VERIF_OUT=" + of, "HOME=" + os.Getenv("HOME"), "PATH=" + os.Getenv("PATH"), "GORACE=halt_on_error=0 exitcode=66"}
+	// The child's environment block and argv are identical in number and
+	// length of entries for every run of every invocation (fixed-width ids,
+	// fixed HOME/PATH): start-up allocations depend on them, and with the
+	// heap layout the iteration order of pointer-keyed maps.
+	env := []string{"GOMAXPROCS=1", "GOGC=off", "GODEBUG=asyncpreemptoff=1,randautoseed=0,randseednop=0,updatemaxprocs=0", "VERIF_REEXEC=00", "VERIF_PLAN=" + pf, "VERIF_OUT=" + of, "HOME=/nonexistent", "PATH=/usr/bin:/bin", "GORACE=halt_on_error=0 exitcode=66"}
 	if b.threads > 0 {
-		env = append(env, fmt.Sprintf("VERIF_THREADS=%d", b.threads))
+		env = append(env, fmt.Sprintf("VERIF_THREADS=%03d", b.threads))
 	}
 	cmd.Env = env
 	var out bytes.Buffer
